@@ -95,12 +95,13 @@ func nodeFrame(w *World, snap int, nT int, signer string) {
 	}
 }
 
-func Ob_C10C07_RemoveVstorage() {
+func Ob_C10C07C08C14_RemoveVstorage() {
 	w := NewWorld()
 	concreteNodeParams(w, 1000000, 1000000000000)
 	var msg nodetypes.MsgRemoveVstorage
 	sym.Fill("msg", &msg)
 	p0, had := w.Node.GetPledge(w.Ctx, msg.Creator)
+	pool0, _ := w.Node.GetPool(w.Ctx)
 	snap, nT := w.Snapshot(), w.TransferCount()
 	var err error
 	panicked, _ := sym.Catch(func() { _, err = w.NodeMsg.RemoveVstorage(sdk.WrapSDKContext(w.Ctx), &msg) })
@@ -108,6 +109,7 @@ func Ob_C10C07_RemoveVstorage() {
 		return
 	}
 	sym.Cover("C10.removevstorage-succeeds")
+	poolTotals(w, pool0, p0, had, msg.Creator)
 	nodeFrame(w, snap, nT, msg.Creator)
 	p1, has := w.Node.GetPledge(w.Ctx, msg.Creator)
 	sym.Assert("C07.remove-needs-pledge", had && has)
@@ -124,12 +126,13 @@ func Ob_C10C07_RemoveVstorage() {
 	sym.Assert("C07.remove-pays-booked", p0.TotalStoragePledged.Amount.Sub(p1.TotalStoragePledged.Amount).Equal(paid))
 }
 
-func Ob_C10C07_AddVstorage() {
+func Ob_C10C07C08C14_AddVstorage() {
 	w := NewWorld()
 	concreteNodeParams(w, 1000000, 1000000000000)
 	var msg nodetypes.MsgAddVstorage
 	sym.Fill("msg", &msg)
 	p0, had := w.Node.GetPledge(w.Ctx, msg.Creator)
+	pool0, _ := w.Node.GetPool(w.Ctx)
 	snap, nT := w.Snapshot(), w.TransferCount()
 	var err error
 	panicked, _ := sym.Catch(func() { _, err = w.NodeMsg.AddVstorage(sdk.WrapSDKContext(w.Ctx), &msg) })
@@ -137,6 +140,7 @@ func Ob_C10C07_AddVstorage() {
 		return
 	}
 	sym.Cover("C10.addvstorage-succeeds")
+	poolTotals(w, pool0, p0, had, msg.Creator)
 	nodeFrame(w, snap, nT, msg.Creator)
 	p1, has := w.Node.GetPledge(w.Ctx, msg.Creator)
 	sym.Assert("C07.add-creates-pledge", has)
@@ -187,5 +191,21 @@ func narrowComplete(w *World, o ordertypes.Order) {
 	for _, id := range o.Shards {
 		s, f := w.Order.GetShard(w.Ctx, id)
 		sym.Assume(!f || s.Status != ordertypes.ShardMigrating)
+	}
+}
+
+// poolTotals (C14 Σ-P4 / C08): the network totals move by exactly what the provider's own capacity and
+// capacity pledge moved, and the provider's pending block reward is settled before its capacity changes.
+func poolTotals(w *World, pool0 nodetypes.Pool, p0 nodetypes.Pledge, had bool, sp string) {
+	pool1, _ := w.Node.GetPool(w.Ctx)
+	p1, _ := w.Node.GetPledge(w.Ctx, sp)
+	t0, c0 := int64(0), sdk.ZeroInt()
+	if had {
+		t0, c0 = p0.TotalStorage, p0.TotalStoragePledged.Amount
+	}
+	sym.Assert("C14.pool-totalstorage-delta", pool1.TotalStorage-pool0.TotalStorage == p1.TotalStorage-t0)
+	sym.Assert("C14.pool-totalpledged-delta", pool1.TotalPledged.Amount.Sub(pool0.TotalPledged.Amount).Equal(p1.TotalStoragePledged.Amount.Sub(c0)))
+	if had && p0.TotalStorage > 0 {
+		sym.Assert("C08.vstorage-settles-reward-first", pendingReward(p1, pool0).Equal(pendingReward(p0, pool0)))
 	}
 }
